@@ -556,3 +556,334 @@ def parser_texts(rng, n_random):
         n = rng.range(2, 9)
         out.append(((7, 8), ' '.join(rng.pick(frags) for _ in range(n))))
     return out
+
+
+# ----------------------------------------------------------------------------------------------------------------------
+# declarations and modules
+#   tparam (n, None | (b, [annot]))     superty (n, [annot])
+#   member (public, method, name, [tparam], [(x, annot)], ret)
+#   typedef ('TDNone',) | ('TDStruct', [(public, x, annot)]) | ('TDEnum', [(n, [annot])])
+#   toplevel ('TInterface', private, name, [tparam], [superty], [member])
+#            ('TClass', private, name, [tparam], typedef, [superty], [(member, body)])
+#   import ([n], [(upper?, n)])          module ([import], [toplevel])
+# Names that take part in the printer's sorting (imported names, module path parts) are taken from 10..99 so that the
+# order of the spellings C10..C99 / v10..v99 is the order of the numbers.
+
+def g_bool(b):
+    return 'true' if b else 'false'
+
+
+def g_tparam(tp):
+    n, b = tp
+    return '(%d, %s)' % (n, g_opt(None if b is None else '(%d, %s)' % (b[0], g_list([g_annot(a) for a in b[1]]))))
+
+
+def g_member(m):
+    pub, meth, name, tps, params, ret = m
+    return ('{| m_public := %s; m_method := %s; m_name := %d; m_tparams := %s; m_params := %s; m_ret := %s |}'
+            % (g_bool(pub), g_bool(meth), name, g_list([g_tparam(t) for t in tps]),
+               g_list(['(%d, %s)' % (x, g_annot(a)) for x, a in params]), g_annot(ret)))
+
+
+def g_supers(sup):
+    return g_list(['(%d, %s)' % (n, g_list([g_annot(a) for a in tas])) for n, tas in sup])
+
+
+def g_typedef(td):
+    if td[0] == 'TDNone':
+        return 'TDNone'
+    if td[0] == 'TDStruct':
+        return '(TDStruct %s)' % g_list(['(%s, %d, %s)' % (g_bool(p), x, g_annot(a)) for p, x, a in td[1]])
+    return '(TDEnum %s)' % g_list(['(%d, %s)' % (n, g_list([g_annot(a) for a in tys])) for n, tys in td[1]])
+
+
+def g_toplevel(t):
+    if t[0] == 'TInterface':
+        _, priv, name, tps, sup, ms = t
+        return '(TInterface %s %d %s %s %s)' % (g_bool(priv), name, g_list([g_tparam(x) for x in tps]), g_supers(sup),
+                                                g_list([g_member(m) for m in ms]))
+    _, priv, name, tps, td, sup, ms = t
+    return '(TClass %s %d %s %s %s %s)' % (g_bool(priv), name, g_list([g_tparam(x) for x in tps]), g_typedef(td), g_supers(sup),
+                                           g_list(['(%s, %s)' % (g_member(m), g_fexpr(b)) for m, b in ms]))
+
+
+def g_import(i):
+    ms, parts = i
+    return '(%s, %s)' % (g_list([str(n) for n in ms]), g_list(['(%s, %d)' % (g_bool(u), n) for u, n in parts]))
+
+
+def g_module(m):
+    return '(%s, %s)' % (g_list([g_import(i) for i in m[0]]), g_list([g_toplevel(t) for t in m[1]]))
+
+
+def tparams_from_json(j):
+    out = []
+    for name, b in (j or []):
+        out.append((num(name, 'C'), None if b is None else (num(b[2], 'C'), [annot_from_json(a) for a in (b[3] or [])])))
+    return out
+
+
+def supers_from_json(j):
+    return [(num(s[2], 'C'), [annot_from_json(a) for a in (s[3] or [])]) for s in (j or [])]
+
+
+def member_from_json(j):
+    return (bool(j['public']), bool(j['method']), num(j['name'], 'v'), tparams_from_json(j['tparams']),
+            [(num(x, 'v'), annot_from_json(a)) for x, a in j['params']], annot_from_json(j['ret']))
+
+
+def module_from_json(raw):
+    """the harness' raw dump (fmt_run.rs dump_module_raw) -> model tree; ValueError outside the model"""
+    imps = []
+    for ms, parts in raw['imports']:
+        ps = []
+        for p in parts:
+            isup = p[:1] == 'C'
+            ps.append((isup, num(p, 'C' if isup else 'v')))
+        imps.append(([num(n, 'C') for n in ms], ps))
+    tops = []
+    for t in raw['toplevels']:
+        tps = tparams_from_json(t['tparams'])
+        sup = supers_from_json(t['supers'])
+        if t['kind'] == 'interface':
+            tops.append(('TInterface', bool(t['private']), num(t['name'], 'C'), tps, sup, [member_from_json(m) for m in t['members']]))
+        else:
+            td = t['typedef']
+            if td is None:
+                d = ('TDNone',)
+            elif td[0] == 'struct':
+                d = ('TDStruct', [(bool(p), num(x, 'v'), annot_from_json(a)) for p, x, a in td[1]])
+            else:
+                d = ('TDEnum', [(num(n, 'C'), [annot_from_json(a) for a in (tys or [])]) for n, tys in td[1]])
+            tops.append(('TClass', bool(t['private']), num(t['name'], 'C'), tps, d, sup,
+                         [(member_from_json(m), from_json(b)) for m, b in t['members']]))
+    return (imps, tops)
+
+
+# ---- source text of a model tree (conservative parentheses; the trees are only used to produce syntactically valid text)
+
+def src_annot(a):
+    k = a[0]
+    if k == 'APrim':
+        return PRIM_JSON[a[1]]
+    if k == 'AGen':
+        return up(a[1])
+    if k == 'AId':
+        return up(a[1]) + ('<' + ', '.join(src_annot(x) for x in a[2]) + '>' if a[2] else '')
+    return '(' + ', '.join(src_annot(x) for x in a[1]) + ') -> ' + src_annot(a[2])
+
+
+def src_pat(p):
+    k = p[0]
+    if k == 'PWild':
+        return '_'
+    if k == 'PId':
+        return low(p[1])
+    if k == 'PTuple':
+        return '(' + ', '.join(src_pat(x) for x in p[1]) + ')'
+    if k == 'PObj':
+        return '{ ' + ', '.join(low(f) if q is None else '%s as %s' % (low(f), src_pat(q)) for f, q in p[1]) + ' }'
+    if k == 'PVar':
+        return up(p[1]) + ('' if p[2] is None else '(' + ', '.join(src_pat(x) for x in p[2]) + ')')
+    return ' | '.join(src_pat(x) for x in p[1])
+
+
+def src_block(ss, r):
+    parts = []
+    for bd, x in ss:
+        if bd is None:
+            parts.append(src_expr(x) + ';')
+        else:
+            parts.append('let %s%s = %s;' % (src_pat(bd[0]), '' if bd[1] is None else ': ' + src_annot(bd[1]), src_expr(x)))
+    if r is not None:
+        parts.append(src_expr(r))
+    return '{ ' + ' '.join(parts) + ' }'
+
+
+def src_operand(e):
+    """e in an operand position: everything but atoms, tuples and blocks is parenthesised"""
+    if e[0] in ('XId', 'XThis', 'XCls', 'XTuple', 'XBlock') or (e[0] == 'XLit' and not (e[1][0] == 'LInt' and e[1][1] < 0)):
+        return src_expr(e)
+    return '(' + src_expr(e) + ')'
+
+
+def src_expr(e):
+    k = e[0]
+    if k == 'XLit':
+        l = e[1]
+        if l[0] == 'LInt':
+            return str(l[1])
+        if l[0] == 'LBool':
+            return 'true' if l[1] else 'false'
+        return '"' + l[1].replace('"', '\\"') + '"'
+    if k == 'XId':
+        return low(e[1])
+    if k == 'XThis':
+        return 'this'
+    if k == 'XCls':
+        return up(e[1])
+    if k == 'XTuple':
+        return '(' + ', '.join(src_expr(x) for x in e[1]) + ')'
+    if k == 'XField':
+        return src_operand(e[1]) + '.' + (up(e[3]) if e[2] else low(e[3])) + ('<' + ', '.join(src_annot(x) for x in e[4]) + '>' if e[4] else '')
+    if k == 'XCall':
+        return (src_operand(e[1]) if e[1][0] != 'XField' else src_expr(e[1])) + '(' + ', '.join(src_expr(x) for x in e[2]) + ')'
+    if k == 'XUn':
+        return ('!' if e[1] == 'Not' else '-') + src_operand(e[2])
+    if k == 'XBin':
+        return src_operand(e[2]) + ' ' + BOP_STR[e[1]] + ' ' + src_operand(e[3])
+    if k == 'XIf':
+        cond = src_expr(e[2]) if e[1] is None else 'let %s = %s' % (src_pat(e[1]), src_expr(e[2]))
+        return 'if %s %s else %s' % (cond, src_expr(e[3]), src_expr(e[4]))
+    if k == 'XMatch':
+        return 'match %s { %s }' % (src_expr(e[1]), ', '.join('%s -> %s' % (src_pat(p), src_expr(b)) for p, b in e[2]))
+    if k == 'XLam':
+        return '(%s) -> %s' % (', '.join(low(x) + ('' if a is None else ': ' + src_annot(a)) for x, a in e[1]), src_operand(e[2]))
+    if k == 'XBlock':
+        return src_block(e[1], e[2])
+    raise ValueError(k)
+
+
+def src_tparams(tps):
+    if not tps:
+        return ''
+    return '<' + ', '.join(up(n) + ('' if b is None else ': ' + up(b[0]) + ('<' + ', '.join(src_annot(a) for a in b[1]) + '>' if b[1] else ''))
+                           for n, b in tps) + '>'
+
+
+def src_supers(sup):
+    if not sup:
+        return ''
+    return ' : ' + ', '.join(up(n) + ('<' + ', '.join(src_annot(a) for a in tas) + '>' if tas else '') for n, tas in sup)
+
+
+def src_member(m, body=None):
+    pub, meth, name, tps, params, ret = m
+    s = ('' if pub else 'private ') + ('method ' if meth else 'function ') + (src_tparams(tps) + ' ' if tps else '') + low(name)
+    s += '(' + ', '.join('%s: %s' % (low(x), src_annot(a)) for x, a in params) + '): ' + src_annot(ret)
+    if body is not None:
+        s += ' = ' + src_expr(body)
+    return s
+
+
+def src_toplevel(t):
+    if t[0] == 'TInterface':
+        _, priv, name, tps, sup, ms = t
+        return '%sinterface %s%s%s { %s }' % ('private ' if priv else '', up(name), src_tparams(tps), src_supers(sup),
+                                              ' '.join(src_member(m) for m in ms))
+    _, priv, name, tps, td, sup, ms = t
+    if td[0] == 'TDNone':
+        d = ''
+    elif td[0] == 'TDStruct':
+        d = '(' + ', '.join(('' if p else 'private ') + 'val %s: %s' % (low(x), src_annot(a)) for p, x, a in td[1]) + ')'
+    else:
+        d = '(' + ', '.join(up(n) + ('(' + ', '.join(src_annot(a) for a in tys) + ')' if tys else '') for n, tys in td[1]) + ')'
+    return '%sclass %s%s%s%s { %s }' % ('private ' if priv else '', up(name), src_tparams(tps), d, src_supers(sup),
+                                        '\n  '.join(src_member(m, b) for m, b in ms))
+
+
+def src_module(m, rng=None):
+    out = []
+    for ms, parts in m[0]:
+        semi = ';' if (rng is None or rng.chance(2, 3)) else ''
+        out.append('import { %s } from %s%s' % (', '.join(up(n) for n in ms), '.'.join((up(n) if u else low(n)) for u, n in parts), semi))
+    out += [src_toplevel(t) for t in m[1]]
+    return '\n'.join(out) + '\n'
+
+
+# ---- generators
+
+def gen_tparams(rng, avail_after_pool=(7, 8, 9)):
+    k = rng.below(4)
+    if k == 0:
+        return []
+    names = list(avail_after_pool)[:rng.range(1, 3)]
+    out = []
+    for n in names:
+        if rng.chance(1, 3):
+            # bound: an identifier with type arguments that mention the parameters (fixed up after the list is complete)
+            tas = [rng.pick([('AId', x, []) for x in names] + [('APrim', 'PInt'), ('AId', 1, [('AId', names[0], [])]),
+                             ('AFn', [('AId', names[0], [])], ('AId', names[-1], []))]) for _ in range(rng.below(3))]
+            out.append((n, (rng.below(6), tas)))
+        else:
+            out.append((n, None))
+    return out
+
+
+def gen_member(rng, depth, class_tps):
+    meth = rng.chance(1, 2)
+    tps = gen_tparams(rng, (17, 18))
+    avail = tuple((class_tps if meth else ())) + tuple(n for n, _ in tps)
+    params = [(x, gen_annot(rng, 2, avail)) for x in rng.shuffle([0, 1, 2, 3])[:rng.below(4)]]
+    m = (not rng.chance(1, 5), meth, rng.below(30), tps, params, gen_annot(rng, 2, avail))
+    return m, avail
+
+
+def gen_toplevel(rng, depth):
+    tps = gen_tparams(rng)
+    ctp = tuple(n for n, _ in tps)
+    sup = [(rng.below(6), [gen_annot(rng, 1, ctp) for _ in range(rng.below(3))]) for _ in range(rng.below(3))]
+    name = rng.below(40)
+    if rng.chance(1, 4):
+        ms = []
+        for _ in range(rng.below(4)):
+            m, _ = gen_member(rng, depth, ctp)
+            ms.append((True,) + m[1:])
+        return ('TInterface', rng.chance(1, 4), name, tps, sup, ms)
+    r = rng.below(4)
+    if r == 0:
+        td = ('TDNone',)
+    elif r < 3:
+        td = ('TDStruct', [(not rng.chance(1, 3), x, gen_annot(rng, 1, ctp)) for x in rng.shuffle([0, 1, 2, 3, 4])[:rng.range(1, 4)]])
+    else:
+        td = ('TDEnum', [(n, [gen_annot(rng, 1, ctp) for _ in range(rng.below(3))]) for n in rng.shuffle([0, 1, 2, 3])[:rng.range(1, 3)]])
+    ms = []
+    for _ in range(rng.below(4)):
+        m, avail = gen_member(rng, depth, ctp)
+        ms.append((m, gen_fexpr(rng, depth, avail)))
+    return ('TClass', rng.chance(1, 4), name, tps, td, sup, ms)
+
+
+def gen_modname(rng):
+    return [(rng.chance(1, 4), rng.range(10, 14)) for _ in range(rng.range(1, 3))]
+
+
+def gen_module_tree(rng, depth, conflicts=False):
+    """conflicts=False: no name is imported from two different modules (outside the open class K7)"""
+    mods = []
+    for _ in range(rng.below(4)):
+        m = gen_modname(rng)
+        if m not in mods:
+            mods.append(m)
+    pool = rng.shuffle(list(range(10, 40)))
+    imps = []
+    for m in mods:
+        for _ in range(rng.range(1, 2)):
+            k = rng.range(1, 3)
+            if conflicts:
+                names = [rng.range(10, 16) for _ in range(k)]
+            else:
+                names, pool = pool[:k], pool[k:]
+            imps.append((names, m))
+    if imps and rng.chance(1, 2):
+        imps = rng.shuffle(imps)
+    return (imps, [gen_toplevel(rng, depth) for _ in range(rng.range(0, 3))])
+
+
+def module_texts():
+    """hand-written sources for the parser tie of declarations: optional parts, errors, limits"""
+    return ['', 'class C1 { }', 'class C1 {}\nclass C2 {}', 'private class C1 { }', 'private interface C1 { }', 'interface C1 : C2, C3<int> { }',
+            'interface C1 { private method v1(): unit }', 'interface C1 { method v1(): unit = 1 }', 'class C1 { method v1(): unit }',
+            'class C1() { }', 'class C1(val v1: int) { }', 'class C1(private val v1: int, val v2: C2<C3>) : C4 { }', 'class C1(val v1: int,) { }',
+            'class C1(C2, C3(int), C4(int, bool),) { }', 'class C1(C2()) { }', 'class C1(C2, val v1: int) { }', 'class C1<> { }', 'class C1<C7> { }',
+            'class C1<C7, C8: C2<C7>, C9: C2<C3<C7>>> { method v1(v2: C7, v3: C3<C8>): C9 = v2 function v4(v2: C7): C7 = v2 function <C7> v5(v2: C7): C7 = v2 }',
+            'class C1<C7: C2<(C7) -> C8>, C8> { }', 'class C1<C7,> { }', 'class C1 : C2, { }', 'class C1 : { }', 'class C1<C7>(val v1: C7) : C2<C7> { method <C8: C3<C8, C7>> v1(): C8 = 1 }',
+            'import { C10 } from v10\nclass C1 { }', 'import { C10, C11 } from v10.C11.v12;\nimport { C12, } from C13\n', 'import { } from v10', 'import { C10 } from', 'import { C10 } v10',
+            'import { C10 } from v10.;', 'import { v10 } from v10', 'class C1 { } import { C10 } from v10', 'import { C10 } from v10;;', 'class C1 { } ;', 'class C1 { function v1(): unit = { } } }',
+            'class C1 { function v1(v2: int, v3: bool,): unit = 1 }', 'class C1 { function v1(,): unit = 1 }', 'class C1 { function v1() = 1 }', 'class C1 { function v1(): unit = 1 function v2(): unit = 2 }',
+            'class C1 { private function v1(): unit = (v2) -> v2 method v3(): unit = 1 }', 'class C1 { function v1(): unit = v2 (v3) }', 'class C1 { function v1(): unit = v2 < v3 }',
+            'class C1(val v0: int, val v1: int, val v2: int, val v3: int, val v4: int, val v5: int, val v6: int, val v7: int, val v8: int, val v9: int, val v10: int, val v11: int, '
+            'val v12: int, val v13: int, val v14: int, val v15: int) { }',
+            'class C1(val v0: int, val v1: int, val v2: int, val v3: int, val v4: int, val v5: int, val v6: int, val v7: int, val v8: int, val v9: int, val v10: int, val v11: int, '
+            'val v12: int, val v13: int, val v14: int, val v15: int, val v16: int) { }',
+            'import { C10 } from v10\nimport { C10 } from v11\nclass C1 { function v1(): C10 = C10.v2() }', 'import { C11, C10 } from v12\nimport { C12 } from v11\nimport { C13, C10 } from v12\n']
